@@ -697,7 +697,10 @@ class SecopClient(ProxyClient):
             raise ConnectionError('connection closed before reply')
         action, _, data = entry[2]  # pylint: disable=unpacking-non-sequence
         if action.startswith(ERRORPREFIX):
-            raise make_secop_error(*data[0:2])
+            error = make_secop_error(*data[0:2])
+            # the rx thread has treated (and cached) this message already
+            error.from_reply = True
+            raise error
         return entry[2]  # reply
 
     def request(self, action, ident=None, data=None):
@@ -714,8 +717,9 @@ class SecopClient(ProxyClient):
             self.request(READREQUEST, self.identifier[module, parameter])
         except SECoPError as e:
             result = self.cache[module, parameter]
-            if e == result.readerror:
+            if getattr(e, 'from_reply', False) or e == result.readerror:
                 # the update was already done in the rx thread
+                # (a later message may have replaced it in the cache since)
                 return result
             # e was not originating from a secop error message e.g. a connection problem
             # -> we have to do the error update
